@@ -75,6 +75,10 @@ def run(ctx: Context) -> None:
     ctx.rule('R16.2', "everything of the geometry: per geometry variable the feeds cover name, dtype, size, shape, raw values and attributes, with lengths fed before variable-length bytes", floor=8)
     ctx.rule('R16.3', "the geometry inventory of every convention covers every dataset variable its geometry code reads", floor=5)
     ctx.rule('R16.4', "only canonical bytes reach hash.update: no process-dependent or non-canonical source in the closure of make_cache_key", floor=1)
+    ctx.rule('R16.5', "which optional mesh tables enter the inventory is decided from the mesh description alone: the validity tests and the dimension discovery they rest on (declared names first, documented fall-backs) do not depend on unrelated dimensions such as the number of time steps (facts shared with C10 R10.2 / R10.5)", floor=25)
+    from . import c10 as _c10
+    from .common import share_obligations as _share
+    _share(ctx, _c10, {'R10.2', 'R10.5'}, 'R16.5')
     ctx.assume("hashlib digests and numpy tobytes('C') are deterministic functions of their input bytes")
 
     impls = p.implementations(base, 'hash_geometry')
